@@ -17,95 +17,114 @@ import (
 
 // impostor — C12 (host side): with AutoMTLS the host talks only to the plugin
 // whose certificate came back in the handshake. params: proto, mode =
-// legit | other-cert | plaintext.
+// legit | other-cert | plaintext | sibling-cert (the certificate and key of another plugin
+// that the same host process launched before).
 func init() {
 	explore.Register(&explore.Scenario{
 		Name:    "impostor",
 		Horizon: 60 * time.Second,
 		Settle:  3 * time.Second,
 		Body: func(x *vs.Exec, p explore.Params) {
-			x.Hold()
-			proto, mode := p["proto"], p["mode"]
-			var ps plugin.PluginSet
-			rp := &tagRPCPlugin{mk: func() *tagRPCServer { return &tagRPCServer{tag: "obj"} }}
-			gp := &fullGRPCPlugin{}
-			if proto == "netrpc" {
-				ps = plugin.PluginSet{"p": rp}
-			} else {
-				ps = plugin.PluginSet{"p": gp}
-			}
-			r := newScriptRunner(x, func(r *scriptRunner) {
-				clientCert := ""
-				for _, e := range r.env {
-					if strings.HasPrefix(e, "PLUGIN_CLIENT_CERT=") {
-						clientCert = strings.TrimPrefix(e, "PLUGIN_CLIENT_CERT=")
+			proto := p["proto"]
+			var sibling *tls.Certificate // the certificate (and key) of a plugin this host launched earlier
+			session := func(mode string) string {
+				x.Hold()
+				var ps plugin.PluginSet
+				rp := &tagRPCPlugin{mk: func() *tagRPCServer { return &tagRPCServer{tag: "obj"} }}
+				gp := &fullGRPCPlugin{}
+				if proto == "netrpc" {
+					ps = plugin.PluginSet{"p": rp}
+				} else {
+					ps = plugin.PluginSet{"p": gp}
+				}
+				r := newScriptRunner(x, func(r *scriptRunner) {
+					clientCert := ""
+					for _, e := range r.env {
+						if strings.HasPrefix(e, "PLUGIN_CLIENT_CERT=") {
+							clientCert = strings.TrimPrefix(e, "PLUGIN_CLIENT_CERT=")
+						}
 					}
+					pool := x509.NewCertPool()
+					pool.AppendCertsFromPEM([]byte(clientCert))
+					mk := func() (tls.Certificate, string) {
+						cp, kp, _ := plugin.VGenerateCert()
+						c, _ := tls.X509KeyPair(cp, kp)
+						return c, base64.RawStdEncoding.EncodeToString(c.Certificate[0])
+					}
+					certA, fieldA := mk()
+					certB, _ := mk()
+					serveCert := certA
+					switch mode {
+					case "other-cert":
+						serveCert = certB
+					case "sibling-cert":
+						serveCert = certB
+						if sibling != nil { // nil: the sibling's start failed in this schedule (timer first)
+							serveCert = *sibling
+						}
+					case "legit":
+						sibling = &certA
+					}
+					o := serveOpts{proto: proto, plugins: ps, certField: fieldA}
+					if proto != "netrpc" {
+						o.proto = "grpc"
+					}
+					if mode != "plaintext" {
+						o.tls = &tls.Config{Certificates: []tls.Certificate{serveCert}, ClientAuth: tls.RequireAndVerifyClientCert, ClientCAs: pool, RootCAs: pool, MinVersion: tls.VersionTLS12, ServerName: "localhost"}
+					}
+					servePlugin(o)(r)
+				})
+				x.OnCleanup(r.exit)
+				cfg := &plugin.ClientConfig{
+					HandshakeConfig:  plugin.HandshakeConfig{MagicCookieKey: "VK", MagicCookieValue: "vv", ProtocolVersion: 1},
+					Plugins:          ps,
+					AllowedProtocols: []plugin.Protocol{plugin.ProtocolNetRPC, plugin.ProtocolGRPC},
+					StartTimeout:     5 * time.Second,
+					Logger:           nullLogger(),
+					RunnerFunc:       r.runnerFunc,
+					AutoMTLS:         true,
+					UnixSocketConfig: &plugin.UnixSocketConfig{TempDir: os.Getenv("TMPDIR")},
 				}
-				pool := x509.NewCertPool()
-				pool.AppendCertsFromPEM([]byte(clientCert))
-				mk := func() (tls.Certificate, string) {
-					cp, kp, _ := plugin.VGenerateCert()
-					c, _ := tls.X509KeyPair(cp, kp)
-					return c, base64.RawStdEncoding.EncodeToString(c.Certificate[0])
-				}
-				certA, fieldA := mk()
-				certB, _ := mk()
-				serveCert := certA
-				if mode == "other-cert" {
-					serveCert = certB
-				}
-				o := serveOpts{proto: proto, plugins: ps, certField: fieldA}
-				if proto != "netrpc" {
-					o.proto = "grpc"
-				}
-				if mode != "plaintext" {
-					o.tls = &tls.Config{Certificates: []tls.Certificate{serveCert}, ClientAuth: tls.RequireAndVerifyClientCert, ClientCAs: pool, RootCAs: pool, MinVersion: tls.VersionTLS12, ServerName: "localhost"}
-				}
-				servePlugin(o)(r)
-			})
-			x.OnCleanup(r.exit)
-			cfg := &plugin.ClientConfig{
-				HandshakeConfig:  plugin.HandshakeConfig{MagicCookieKey: "VK", MagicCookieValue: "vv", ProtocolVersion: 1},
-				Plugins:          ps,
-				AllowedProtocols: []plugin.Protocol{plugin.ProtocolNetRPC, plugin.ProtocolGRPC},
-				StartTimeout:     5 * time.Second,
-				Logger:           nullLogger(),
-				RunnerFunc:       r.runnerFunc,
-				AutoMTLS:         true,
-				UnixSocketConfig: &plugin.UnixSocketConfig{TempDir: os.Getenv("TMPDIR")},
-			}
-			cl := plugin.NewClient(cfg)
-			x.Release()
-			served := ""
-			func() {
-				defer func() {
-					if rec := recover(); rec != nil {
-						x.Fail("PANIC", "host panicked: %v", rec)
+				cl := plugin.NewClient(cfg)
+				x.Release()
+				served := ""
+				func() {
+					defer func() {
+						if rec := recover(); rec != nil {
+							x.Fail("PANIC", "host panicked: %v", rec)
+						}
+					}()
+					cp, err := cl.Client()
+					x.Obs("Client err=%v", err != nil)
+					if err != nil {
+						return
+					}
+					obj, err := cp.Dispense("p")
+					x.Obs("Dispense err=%v", err != nil)
+					if err != nil {
+						return
+					}
+					lc := &liveClient{proto: proto}
+					if err := lc.call(obj, false); err == nil {
+						served = "call answered"
+					}
+					if err := cp.Ping(); err == nil && served == "" {
+						served = "ping answered"
 					}
 				}()
-				cp, err := cl.Client()
-				x.Obs("Client err=%v", err != nil)
-				if err != nil {
-					return
+				cl.Kill()
+				if r.tmpDir != "" {
+					os.RemoveAll(r.tmpDir)
 				}
-				obj, err := cp.Dispense("p")
-				x.Obs("Dispense err=%v", err != nil)
-				if err != nil {
-					return
-				}
-				lc := &liveClient{proto: proto}
-				if err := lc.call(obj, false); err == nil {
-					served = "call answered"
-				}
-				if err := cp.Ping(); err == nil && served == "" {
-					served = "ping answered"
-				}
-			}()
-			x.Data["served"] = served
-			cl.Kill()
-			if r.tmpDir != "" {
-				os.RemoveAll(r.tmpDir)
+				return served
 			}
+			if p["mode"] == "sibling-cert" {
+				// the same host process first runs an honest AutoMTLS plugin, whose key the impostor then uses
+				if s := session("legit"); s == "" {
+					x.Obs("sibling session did not talk")
+				}
+			}
+			x.Data["served"] = session(p["mode"])
 			x.Data["completed"] = true
 		},
 		Check: func(x *vs.Exec, p explore.Params) {
@@ -131,7 +150,7 @@ func init() {
 		Instances: func(tier string) []explore.Params {
 			var out []explore.Params
 			for _, proto := range []string{"netrpc", "grpc"} {
-				for _, m := range []string{"legit", "other-cert", "plaintext"} {
+				for _, m := range []string{"legit", "other-cert", "plaintext", "sibling-cert"} {
 					if proto == "netrpc" {
 						// crypto/tls holds its (real) handshake mutex across a blocking read while yamux's
 						// second goroutine waits for that mutex: not durably blocked, the bubble stalls.
